@@ -283,7 +283,7 @@ def run(ctx):
                 return any(t.replace(' ', '') in ('%s.residue_type==%s' % (group_var, ov),
                                                   '%s==%s.residue_type' % (ov, group_var))
                            for ov in order_vars)
-            only = all(p and is_eq(t) for t, p in facts)
+            only = all(p and (is_eq(t) or t == group_var + '.use_in_calculations()') for t, p in facts)
             ok = any('write_out_order' in i for i in its) and eq and only and \
                 not any(isinstance(n, ast.Break) for l in lps for n in ast.walk(l))
         ctx.ob('C01.R4', 'section:' + qual, ok,
